@@ -50,7 +50,7 @@ DbSound == \A e \in db : Judged(cand) => Entailed(e.from, e.th)
 ClosedRefutes == phase = "refuted" => /\ Tier(AsPrems(WrapAssumed(cand)), PS(FalseC)) # "none"
                                      /\ Entailed(AsPrems(WrapAssumed(cand)), PS(FalseC))
 \* explicit near misses are really not consequences (the oracle can tell them apart)
-NearMissRefuted == (Judged(cand) /\ cand.mut \in {"nm.outerhyp", "nm.intonly", "nm.strict", "nm.offbyone", "nm.binminus", "nm.zerodiv", "nm.freevar", "nm.shape", "nm.arity", "nm.vars"})
+NearMissRefuted == (Judged(cand) /\ cand.mut \in {"nm.outerhyp", "nm.intonly", "nm.strict", "nm.offbyone", "nm.binminus", "nm.zerodiv", "nm.freevar", "nm.shape", "nm.arity", "nm.vars", "nm.noteq", "nm.quant", "nm.arith"})
                       => (Tier(cand.prems, ResOfRule(cand)) # "none" /\ ~Entailed(cand.prems, ResOfRule(cand)))
 \* whole proofs (spec -> code): commands of smt/veriT/command.py
 Cmd(k, id, rule, f, cl, pm) == [k |-> k, id |-> id, rule |-> rule, t |-> f, cl |-> cl, pm |-> pm]
@@ -62,12 +62,18 @@ ProofOf(i) ==
             \o << Cmd("step", "t1", i.rule, TrueC, i.cl, Ids("a", m)) >>
             \o [k \in 1..n |-> Cmd("assume", "b" \o ToString(k), "", Neg(i.cl[k]), <<>>, <<>>)]
             \o << Cmd("step", "t2", "verit_th_resolution", TrueC, <<>>, <<"t1">> \o Ids("b", n)) >>]
+\* a proof the reference refuses: a step outside a subproof cites a step derived from the LOCAL assumption of that subproof
+LeakProof(A) ==
+  [kind |-> "leak/local-assumption",
+   cmds |-> << Cmd("anchor", "t2", "", TrueC, <<>>, <<>>), Cmd("assume", "t2.a0", "", A, <<>>, <<>>),
+               Cmd("step", "t2.t1", "verit_or", TrueC, <<A>>, <<"t2.a0">>), Cmd("step", "t2", "verit_subproof", TrueC, <<Neg(A), A>>, <<>>),
+               Cmd("assume", "a1", "", Neg(A), <<>>, <<>>), Cmd("step", "t3", "verit_th_resolution", TrueC, <<>>, <<"t2.t1", "a1">>) >>]
 \* ------------------------------------------------------------------ emission of the candidates as vectors (spec -> code), once, at start-up
 ToJ(i) == [rule |-> i.rule, mut |-> i.mut, prems |-> i.prems, cl |-> i.cl, sizes |-> i.x.sizes, coeffs |-> i.x.coeffs, inst |-> i.x.inst, ctx |-> i.x.ctx]
 ASSUME Emitted == LET cs == SetToSeq(Candidates) IN
                   /\ ndJsonSerialize(IOEnv.VECTOR_FILE, [k \in 1..Len(cs) |-> ToJ(cs[k])])
                   /\ LET ws == SetToSeq({ c \in Candidates : Wrappable(c) }) IN
-                     /\ ndJsonSerialize(IOEnv.PROOF_FILE, [k \in 1..Len(ws) |-> ProofOf(ws[k])])
+                     /\ ndJsonSerialize(IOEnv.PROOF_FILE, [k \in 1..Len(ws) |-> ProofOf(ws[k])] \o SetToSeq({ LeakProof(A) : A \in {vp, Neg(vq)} }))
                      /\ PrintT(<<"proofs", Len(ws)>>)
                   /\ PrintT(<<"vectors", Len(cs), "intended", Cardinality(Intended), "rules", Cardinality(Rules)>>)
 =============================================================================
